@@ -39,6 +39,7 @@ from insights.core.spec_factory import DatasourceProvider
 logging.getLogger("insights.cleaner").setLevel(logging.CRITICAL)    # SubIPError warnings of the width mode
 FINDING_MAC = "mac-after-colon"
 FINDING_KW = "keyword-splits-password-key"
+FINDING_WIDTH = "width-mode-eats-text"
 NAMES = ["hostname", "ip", "ipv6", "keyword", "mac", "password"]
 DOMAIN_LIMIT = 0x250
 STARS = "********"
@@ -386,6 +387,63 @@ def ipv4_tokens(line):
     return toks
 
 
+def ipv4_loose(line):
+    """(start, address) of every dotted quad the width-mode step may substitute: it starts at a word boundary, the
+    first three octets are canonical and end at a '.', the last is the longest canonical octet that starts there"""
+    out, n = [], len(line)
+    for i in range(n):
+        if not line[i].isdigit() or not line[i].isascii() or (i > 0 and is_word(line[i - 1])):
+            continue
+        p, octs = i, []
+        for k in range(4):
+            q = p
+            while q < n and line[q].isascii() and line[q].isdigit() and q - p < 3:
+                q += 1
+            if k < 3:
+                if q < n and line[q].isascii() and line[q].isdigit():
+                    break                       # a fourth digit: no '.' can follow a canonical octet here
+                o = line[p:q]
+                if not canon_octet(o, k == 0) or q >= n or line[q] != ".":
+                    break
+                octs.append(o)
+                p = q + 1
+            else:
+                o = line[p:q]
+                while o and not canon_octet(o, False):
+                    o = o[:-1]
+                if not o:
+                    break
+                octs.append(o)
+        if len(octs) == 4:
+            out.append((i, ".".join(octs)))
+    return out
+
+
+def width_eats(case, line):
+    """
+    INPUT-ONLY predicate of the known finding width-mode-eats-text: the call is in width mode with IPv4 substitution
+    active, and the line contains an address that will be replaced by a LONGER substitute (10.230.230.N: 12 characters
+    and one more per further digit of N, N at most the number of addresses of the content) with fewer blanks at the
+    first blank behind it than the substitute is longer — _sub_ip_keep_width then removes non-blank characters there.
+    """
+    cfg, call = case["cfg"], case["call"]
+    if not (call["width"] and cfg["obfuscate"] and "ip" not in (call["no_obfuscate"] or [])):
+        return False
+    M = cleaner_mod.MAX_LINE_LENGTH
+    total = len(set(a for l in case["lines"] for _, a in ipv4_loose(l[:M]) if a != "127.0.0.1"))
+    longest = 11 + len(str(max(total, 1)))
+    line = line[:M]
+    for i, a in ipv4_loose(line):
+        if a == "127.0.0.1" or len(a) >= longest:
+            continue
+        j = line.find(" ", i + len(a))
+        if j < 0:
+            continue                            # no blank behind the address: nothing is removed
+        if line[j:j + (longest - len(a))].strip(" "):
+            return True
+    return False
+
+
 def mac_tokens(line):
     """(token, start) of MAC-shaped strings whose neighbours are non-word characters"""
     toks = []
@@ -548,6 +606,17 @@ class Oracle(object):
             kws_db[k.strip()] = "keyword%d" % i
         if "keyword" not in no_obf:
             subs |= set(kws_db.values())
+            # a substitute that a LATER keyword step rewrites (keyword "ey" inside "keyword0", "example" inside
+            # "host2.example.com") is still inserted text: cover the rewritten form as well
+            kw_items = list(kws_db.items())
+
+            def kw_rewrite(t, start=0):
+                for k, v in kw_items[start:]:
+                    t = t.replace(k, v)
+                return t
+            early = set(v for name in ("host", "ip", "ipv6") for _, v in r.tables[name])
+            subs |= set(kw_rewrite(v) for v in early)
+            subs |= set(kw_rewrite(v, i + 1) for i, (_, v) in enumerate(kw_items))
         cov = covered_positions(text, subs)
         in_sub = lambda t: any(t in s for s in subs)
 
@@ -562,7 +631,7 @@ class Oracle(object):
             hit = [bool(w) for w in which]
             keeps = call["allowlist"] is None       # nothing but the patterns can remove a line
             kw_empty = "keyword" not in no_obf and "" in kws_db            # '' as a keyword rewrites the markers
-            width_del = call["width"] and cfg["obfuscate"] and "ip" not in no_obf     # width mode deletes characters
+            width_del = any(width_eats(case, l) for l in lines)     # known finding: width mode removes text (a marker, too)
             route = call["route"]
 
             def name(i):
@@ -612,10 +681,10 @@ class Oracle(object):
                 if not any(k in l for l in lines):
                     continue
                 if uncovered_occurrence(text, k, cov) >= 0:
-                    self.fails.append(("keyword", "keyword %r occurs in the output %r" % (k, text), None))
+                    fid = FINDING_WIDTH if any(width_eats(case, l) for l in lines if k in l) else None
+                    self.fails.append(("keyword", "keyword %r occurs in the output %r" % (k, text), fid))
         # -- passwords
-        # (width mode deletes characters after an address and may eat part of a key: tied by correspondence only)
-        if "password" not in no_obf and not (call["width"] and cfg["obfuscate"] and "ip" not in no_obf):
+        if "password" not in no_obf:
             joined = "\n".join(lines)
             for l in lines:
                 for sec, k0, k1 in password_secrets(l[:cleaner_mod.MAX_LINE_LENGTH]):
@@ -629,6 +698,8 @@ class Oracle(object):
                             earlier.append(cfg["fqdn"].split(".")[0])
                         fid = FINDING_KW if ((kw_on and "" in kws_db) or
                                              any(k and overlaps(l, k, k0, k1) for k in earlier)) else None
+                        if fid is None and width_eats(case, l):
+                            fid = FINDING_WIDTH        # known finding: the width-mode step removed text of the line (the key)
                         self.fails.append(("password", "secret %r of line %r occurs in the output %r" % (sec, l, text), fid))
         if not cfg["obfuscate"]:
             return self.fails
@@ -697,8 +768,11 @@ class Oracle(object):
                             for x in lines for tt, i in mac_tokens(x[:M]) if tt == t)
                         near_out = all((i > 0 and o[i - 1] in ":-") or (i + 17 < len(o) and o[i + 17] in ":-")
                                        for tt, i in mac_tokens(o) if tt == t)
-                        self.fails.append(("mac", "MAC address %r of line %r occurs in the output %r" % (t, l, o),
-                                           FINDING_MAC if (near_in and near_out) else None))
+                        fid = FINDING_MAC if (near_in and near_out) else None
+                        if fid is None and (width_eats(case, l) if not strict else
+                                            any(width_eats(case, x) for x in lines if t in x)):
+                            fid = FINDING_WIDTH     # known finding: the width-mode step (before the MAC stage) removed text of the line
+                        self.fails.append(("mac", "MAC address %r of line %r occurs in the output %r" % (t, l, o), fid))
         return self.fails
 
     @staticmethod
